@@ -33,6 +33,10 @@ class UnitResult:
         self.gen_path = None
         self.cmd = ''
         self.raw_err = ''
+        self.retry_drop = []
+        self.dropped_splices = {}
+        self.lost_splices = {}
+        self.hint_lost_failures = []
 
 
 def slug(msg):
@@ -45,12 +49,30 @@ def label_of(line_text):
 
 
 def run_unit(unit_name, unit_path, workdir, repo=None, rlimit=None, extra_args=(), timeout=600):
+    """Generate and verify a unit.  Ghost splices whose text no longer type-checks
+    against the current code (a local they mention was renamed or removed) are
+    dropped one round at a time and the unit is re-run; a function that lost a
+    hint is still checked, but its failure then counts as undecided."""
+    drop = {}
+    res = None
+    for _round in range(5):
+        res = _run_unit_once(unit_name, unit_path, workdir, repo, rlimit, extra_args, timeout, drop)
+        if not res.retry_drop:
+            break
+        for (key, order) in res.retry_drop:
+            drop.setdefault(key, set()).add(order)
+    res.dropped_splices = {('%s::%s' % (k[0], k[1])): sorted(v) for k, v in drop.items()}
+    return res
+
+
+def _run_unit_once(unit_name, unit_path, workdir, repo, rlimit, extra_args, timeout, drop):
     res = UnitResult(unit_name)
+    res.retry_drop = []
     gen = os.path.join(workdir, unit_name + '.rs')
     res.gen_path = gen
     t0 = time.time()
     try:
-        ex = extract.generate(unit_path, gen, repo=repo)
+        ex = extract.generate(unit_path, gen, repo=repo, drop_splices=drop)
     except ScanError as e:
         res.status = 'undecided'
         res.reason = 'extraction: %s' % e
@@ -147,6 +169,17 @@ def run_unit(unit_name, unit_path, workdir, repo=None, rlimit=None, extra_args=(
             'obligation': '%s.%s.%s' % (unit_name, fn, clause_label or kind),
         })
     if compile_errors:
+        # compile errors located inside spliced ghost text: drop those splices and retry
+        todo = set()
+        for d in compile_errors:
+            for sp in d.get('spans', []):
+                if sp.get('is_primary'):
+                    for gl in range(sp['line_start'], sp.get('line_end', sp['line_start']) + 1):
+                        if gl in ex.splice_lines:
+                            todo.add(ex.splice_lines[gl])
+        new_todo = [t for t in todo if t[1] not in drop.get(t[0], set())]
+        if new_todo:
+            res.retry_drop = new_todo
         res.status = 'undecided'
         res.reason = 'rustc/VIR error (unsupported construct or signature change): ' + \
             '; '.join((d.get('message', '')[:200] + ' @' + _where(ex, d)) for d in compile_errors[:5])
@@ -157,6 +190,21 @@ def run_unit(unit_name, unit_path, workdir, repo=None, rlimit=None, extra_args=(
         return res
     if res.status == 'undecided':
         return res
+    lost_by_fn = {}
+    for m in ex.functions:
+        if m.get('lost_splices'):
+            lost_by_fn[m['emitted_as']] = m['lost_splices']
+    res.lost_splices = lost_by_fn
+    hint_lost = [f for f in res.failures if f['fn'] in lost_by_fn]
+    if hint_lost:
+        # the proof of these functions could not be replayed as written: not a verdict
+        res.failures = [f for f in res.failures if f['fn'] not in lost_by_fn]
+        res.hint_lost_failures = hint_lost
+        if not res.failures:
+            res.status = 'undecided'
+            res.reason = 'proof hints could not be placed on the current code, obligations not discharged: ' + '; '.join(
+                '%s (%s)' % (f['obligation'], ', '.join(lost_by_fn[f['fn']])[:200]) for f in hint_lost[:4])
+            return res
     if res.failures or res.errors or not vr.get('success', False):
         if not res.failures:
             res.status = 'undecided'
